@@ -92,10 +92,18 @@ func (t *T) IsUnknownType() bool {
 }
 
 func (t *T) IsClassType() bool {
+	if t == nil {
+		return false
+	}
+
 	return t.tType == CLASS
 }
 
 func (t *T) IsClassIdentifier() bool {
+	if t == nil {
+		return false
+	}
+
 	if t.tType != UNKNOWN {
 		return false
 	}
@@ -226,6 +234,10 @@ func (t *T) IsTransformTargetIdentifier() bool {
 }
 
 func (t *T) IsTopLevelFunctionIdentifier(frame string, class string) bool {
+	if t == nil {
+		return false
+	}
+
 	if t.tType != UNKNOWN {
 		return false
 	}
@@ -257,6 +269,10 @@ func (t *T) IsCloseParentheses() bool {
 }
 
 func (t *T) IsImmediate() bool {
+	if t == nil {
+		return false
+	}
+
 	return t.tType != UNKNOWN
 }
 
